@@ -410,6 +410,9 @@ func (co *coordinator) tmpfsChain(name string) {
 		for k, v := range t.Counts {
 			r.Count("tmpfs_"+name+"_"+k, v)
 		}
+		if t.Counts["receives_failed_at_pack_creation"] > 0 {
+			r.Note("categories", "enospc-at-creation-of-next-pack-file")
+		}
 		if t.Counts["receives_failed_enospc"] > 0 {
 			r.Distinct("tmpfs|" + name)
 			r.Note("fault_sites", name+":receive@tmpfs:enospc")
